@@ -338,8 +338,75 @@ fn op_sample_dd(j: &Value) -> Value {
     })
 }
 
+// ------------------------------------------------------------------------------------------------
+// left-tagged scalar: every result carries the tag of its LEFT operand (of the value it was derived from for unary operations and
+// constructors). A legal MomTropFloat for which `a * b` and `b * a`, `zero()` of one vector and of another are distinguishable.
+// ------------------------------------------------------------------------------------------------
+#[derive(Clone, Debug)]
+pub struct Lt {
+    pub v: f64,
+    pub tag: u32,
+}
+impl Lt {
+    fn op_add(a: &Lt, b: &Lt) -> Lt { Lt { v: a.v + b.v, tag: a.tag } }
+    fn op_sub(a: &Lt, b: &Lt) -> Lt { Lt { v: a.v - b.v, tag: a.tag } }
+    fn op_mul(a: &Lt, b: &Lt) -> Lt { Lt { v: a.v * b.v, tag: a.tag } }
+    fn op_div(a: &Lt, b: &Lt) -> Lt { Lt { v: a.v / b.v, tag: a.tag } }
+    fn op_neg(a: &Lt) -> Lt { Lt { v: -a.v, tag: a.tag } }
+    fn un(&self, v: f64) -> Lt { Lt { v, tag: self.tag } }
+}
+impl_ops!(Lt);
+impl PartialEq for Lt { fn eq(&self, o: &Lt) -> bool { self.v == o.v } }
+impl PartialOrd for Lt { fn partial_cmp(&self, o: &Lt) -> Option<Ordering> { self.v.partial_cmp(&o.v) } }
+impl MomTropFloat for Lt {
+    fn one(&self) -> Self { self.un(1.0) }
+    fn zero(&self) -> Self { self.un(0.0) }
+    fn PI(&self) -> Self { self.un(std::f64::consts::PI) }
+    fn ln(&self) -> Self { self.un(self.v.ln()) }
+    fn exp(&self) -> Self { self.un(self.v.exp()) }
+    fn cos(&self) -> Self { self.un(self.v.cos()) }
+    fn sin(&self) -> Self { self.un(self.v.sin()) }
+    fn sqrt(&self) -> Self { self.un(self.v.sqrt()) }
+    fn abs(&self) -> Self { self.un(self.v.abs()) }
+    fn inv(&self) -> Self { self.un(1.0 / self.v) }
+    fn powf(&self, p: &Self) -> Self { self.un(self.v.powf(p.v)) }
+    fn from_isize(&self, value: isize) -> Self { self.un(value as f64) }
+    fn from_f64(&self, value: f64) -> Self { self.un(value) }
+    fn to_f64(&self) -> f64 { self.v }
+}
+
+/// vector operations with the left-tagged scalar: `a` carries tag 1, `b` tag 2, the scalar `s` tag 3; returns values and tags
+fn op_vec_tag(j: &Value) -> Value {
+    let d = j["D"].as_u64().unwrap() as usize;
+    let f = j["fn"].as_str().unwrap();
+    let a: Vec<Lt> = get_bits(j, "a").iter().map(|&v| Lt { v, tag: 1 }).collect();
+    let b: Vec<Lt> = get_bits(j, "b").iter().map(|&v| Lt { v, tag: 2 }).collect();
+    let s = Lt { v: j["s"].as_u64().map(b2f).unwrap_or(0.0), tag: 3 };
+    with_d6!(d, D, {
+        let va = || Vector::<Lt, D>::from_vec(a.clone());
+        let vb = || Vector::<Lt, D>::from_vec(b.clone());
+        let r: Vec<Lt> = match f {
+            "add" => (&va() + &vb()).get_elements().to_vec(),
+            "sub" => (&va() - &vb()).get_elements().to_vec(),
+            "muls" => (&va() * s.clone()).get_elements().to_vec(),
+            "mulr" => (&va() * &s).get_elements().to_vec(),
+            "addassign" => { let mut v = va(); v += vb(); v.get_elements().to_vec() }
+            "dot" => vec![va().dot(&vb())],
+            "squared" => vec![va().squared()],
+            "new" => va().new().get_elements().to_vec(),
+            other => panic!("harness: unknown vec_tag fn {other}"),
+        };
+        json!({"r": r.iter().map(|t| f2b(t.v)).collect::<Vec<_>>(), "tags": r.iter().map(|t| t.tag).collect::<Vec<_>>()})
+    })
+}
+
+fn get_bits(j: &Value, k: &str) -> Vec<f64> {
+    j[k].as_array().map(|a| a.iter().map(|v| b2f(v.as_u64().unwrap())).collect()).unwrap_or_default()
+}
+
 pub fn handle_ext(op: &str, j: &Value) -> Value {
     match op {
+        "vec_tag" => op_vec_tag(j),
         "sample_track" => op_sample_track(j),
         "sample_dd" => op_sample_dd(j),
         other => crate::extra::handle_extra(other, j),
